@@ -175,6 +175,12 @@ class AliasAnalysis:
                 return _elem(recv) | recv  # element of a container
             if f.attr in VIEW_METHODS and recv:
                 return recv
+        if tail in ("array", "masked_array", "MaskedArray") and ".ma." in ("." + (dotted(call.func) or "")):
+            # numpy.ma constructors default to copy=False: the result shares the input buffer
+            for k in call.keywords:
+                if k.arg == "copy" and isinstance(k.value, ast.Constant) and k.value.value is True:
+                    return frozenset()
+            return self.alias(call.args[0], st) if call.args else frozenset()
         if tail in ("array",):
             for k in call.keywords:
                 if k.arg == "copy" and isinstance(k.value, ast.Constant) and k.value.value in (False, None):
